@@ -70,6 +70,11 @@ TARGETS = [
     ("tk_green", "cstree/src/syntax/token.rs", "SyntaxToken", None, "green"),
     ("tk_kind", "cstree/src/syntax/token.rs", "SyntaxToken", None, "kind"),
     ("tk_syntax_kind", "cstree/src/syntax/token.rs", "SyntaxToken", None, "syntax_kind"),
+    ("nd_kind", "cstree/src/syntax/node.rs", "SyntaxNode", None, "kind"),
+    ("nd_syntax_kind", "cstree/src/syntax/node.rs", "SyntaxNode", None, "syntax_kind"),
+    ("nd_parent", "cstree/src/syntax/node.rs", "SyntaxNode", None, "parent"),
+    ("nd_green", "cstree/src/syntax/node.rs", "SyntaxNode", None, "green"),
+    ("nd_arity_with_tokens", "cstree/src/syntax/node.rs", "SyntaxNode", None, "arity_with_tokens"),
     ("n_clone", "cstree/src/syntax/node.rs", "SyntaxNode", "Clone", "clone"),
     ("n_drop", "cstree/src/syntax/node.rs", "SyntaxNode", "Drop", "drop"),
     ("n_try_write", "cstree/src/syntax/node.rs", "SyntaxNode", None, "try_write"),
